@@ -537,10 +537,12 @@ func (u *Upgrader) Upgrade(w http.ResponseWriter, r *http.Request, responseHeade
 		return nil, err
 	}
 
+	// use wsc's conn: if the conn has been transferred to the poller,
+	// the hijacked one is closed and is not the one we read from.
 	if u.KeepaliveTime > 0 {
-		_ = conn.SetReadDeadline(time.Now().Add(u.KeepaliveTime))
+		_ = wsc.SetReadDeadline(time.Now().Add(u.KeepaliveTime))
 	} else {
-		_ = conn.SetReadDeadline(time.Time{})
+		_ = wsc.SetReadDeadline(time.Time{})
 	}
 
 	if wsc.openHandler != nil {
